@@ -598,6 +598,59 @@ func c12kGenerate(o *opts, r *rng, stats map[string]int) []*c12kJob {
 			return c12kRandomSite(s, r, maxWs), true
 		})
 	}
+
+	// k4: LONG filters (tens to hundreds of clauses, as generated id / role filters are) in the uniform styles:
+	// the compact canonical spelling against pretty-printed / tabbed / multi-line spellings of thousands of tokens
+	longClauses := []string{`age|=|3`, `name|=|"alice"`, `age~{between}~2~{and}~8`, `score|>|2.0`, `active|=|{true}`,
+		`name~{not}~{contains}~"li"`, `age~{not}@{in}~[|1|,|2|,|13|]`, `{anyOf}(|tags|)|=|"red"`}
+	longSizes := []int{20, 60, 120, 200}
+	if o.thorough() {
+		longSizes = append(longSizes, 400, 800)
+	}
+	for _, n := range longSizes {
+		for variant := 0; variant < 3; variant++ {
+			var b strings.Builder
+			for i := 0; i < n; i++ {
+				if i > 0 {
+					switch {
+					case variant == 0, variant == 2 && i%3 == 0:
+						b.WriteString(`~{or}~`)
+					default:
+						if variant == 1 && i%2 == 0 {
+							b.WriteString(`~{or}~`)
+						} else {
+							b.WriteString(`~{and}~`)
+						}
+					}
+				}
+				if variant == 0 {
+					b.WriteString(longClauses[0]) // an id-list like chain of one comparison
+				} else {
+					b.WriteString(longClauses[(i+variant)%len(longClauses)])
+				}
+			}
+			sites := c12kParse(whole(b.String()), false)
+			for si, st := range styles {
+				if !o.thorough() && (si+variant+n)%3 != 0 {
+					continue
+				}
+				st := st
+				add("k4", "people", sites, func(_ int, s c12kSite) (string, bool) {
+					switch s.kind {
+					case 'K':
+						return c12kCase(s.text, st.kwMode, nil), true
+					case '+':
+						return st.plus, true
+					case '*':
+						return st.star, true
+					case '1':
+						return st.one, true
+					}
+					return "", false
+				})
+			}
+		}
+	}
 	return jobs
 }
 
